@@ -8,6 +8,7 @@ CONSTANTS
   ParentKill = TRUE
   ClearFirst = FALSE
   NarrowExcept = FALSE
+  NoAckWait = FALSE
 INVARIANT TypeOK
 PROPERTY Live_Reaped
 CHECK_DEADLOCK FALSE
